@@ -8,11 +8,86 @@ from .values import (I, B, VInt, VBool, VNum, VStr, VCls, VNone, VRef, VTuple, V
 from .heap import PyRaise
 
 
+NS_DICT = ty.parse('dict[str,any]')
+
+
+def _ns_types(eng, cname):
+    return eng.reg.namespaces.get(cname, {})
+
+
+def ns_cast(eng, raw, t):
+    t = ty.parse(t)
+    if t == ty.INT:
+        f = z3.Function('unbox_num', I, eng.ctx.num) if eng.ctx.num == I else z3.Function('unbox_int', I, I)
+        return VInt(f(raw.term))
+    if isinstance(t, (ty.TList, ty.TDict, ty.TRef)):
+        return VRef(raw.term, t, raw.st)
+    return raw
+
+
+def ns_getattr(eng, obj, name):
+    """Instance-namespace model (C19): attribute read = instance __dict__ first, then the class (methods)."""
+    cname = obj.typ.cls
+    D = eng.read_field(obj, '__dict__', NS_DICT)
+    if name == '__dict__':
+        return D
+    key = VStr(eng.ctx.strid(name), name)
+    has = eng.dict_has(D, key)
+    fi = eng.prog.find_method(cname, name)
+    if fi is not None:
+        # a method looked up through the instance is shadowed by an instance-dict entry of the same name
+        eng.oblige_safe('TypeError', z3.Not(has), f'shadowed-method:{name}')
+        return VFunc('method', fi=fi, self=obj)
+    eng.oblige_safe('AttributeError', has, f'attribute:{name}')
+    raw = eng.dict_get(D, key)
+    return ns_cast(eng, raw, _ns_types(eng, cname).get(name, 'int'))
+
+
+def ns_setattr(eng, obj, name, v):
+    D = eng.read_field(obj, '__dict__', NS_DICT)
+    eng.dict_set(D, VStr(eng.ctx.strid(name), name), v)
+    return True
+
+
+def tags_module_library(eng, module, name):
+    r = VRef(z3.Int('module_library'), ty.TRef('TagLibrary'))
+    return eng.typed(r)
+
+
+def bi_hasattr(eng, args, kwargs, node):
+    """hasattr(cls, name) for a repository class and a symbolic name: true for every name defined in the class
+    body (from the AST) and for the attributes every object has (assumed: dir(object) of CPython)."""
+    c, name = args
+    cname = getattr(c, 'name', None)
+    if cname is None or cname not in eng.prog.classes:
+        if isinstance(c, VCls) or (isinstance(c, VFunc) and c.kind == 'class'):
+            cname = 'TagLibrary' if 'TagLibrary' in eng.prog.classes else None
+        if cname is None:
+            raise Unsupported('hasattr on this object')
+    f = z3.Function('class_attr_' + cname, I, B)
+    known = set()
+    for k in eng.prog.mro(cname):
+        ci = eng.prog.classes[k]
+        known |= set(ci.methods) | set(ci.class_attrs) | set(ci.properties)
+    known |= {'__dict__', '__class__', '__init__', '__doc__', '__module__', '__weakref__', '__eq__', '__hash__',
+              '__repr__', '__str__', '__new__', '__getattribute__', '__setattr__', '__delattr__', '__dir__',
+              '__reduce__', '__reduce_ex__', '__sizeof__', '__format__', '__init_subclass__', '__subclasshook__',
+              '__ne__', '__lt__', '__le__', '__gt__', '__ge__', '__getstate__'}
+    for k in sorted(known):
+        eng.fact(f(eng.ctx.strid(k)))
+    eng.used_assumption('hasattr(type(library), name): true for the names defined in the class body (AST) and for '
+                        "CPython's object attributes; unconstrained for other names")
+    return VBool(f(name.term))
+
+
 def install(eng):
     eng.ext_contracts.update(EXTERNALS)
+    eng.attr_hooks[('TagLibrary', '*')] = ns_getattr
+    eng.setattr_hooks[('TagLibrary', '*')] = ns_setattr
+    eng.attr_hooks[('global:Tags', '_module_library')] = tags_module_library
+    eng.builtin_hooks['hasattr'] = bi_hasattr
     eng.attr_hooks[('module:Tags', '*')] = tags_module_attr
     eng.attr_hooks[('Logger', '*')] = None
-    eng.builtin_hooks['hasattr'] = None
     for k in [k for k, v in eng.attr_hooks.items() if v is None]:
         del eng.attr_hooks[k]
     for k in [k for k, v in eng.builtin_hooks.items() if v is None]:
